@@ -2,6 +2,7 @@ package mint
 
 import (
 	"bytes"
+	"context"
 	"encoding/json"
 	"fmt"
 	"os"
@@ -12,6 +13,7 @@ import (
 	"0chain.net/chaincore/block"
 	"0chain.net/chaincore/chain"
 	cstate "0chain.net/chaincore/chain/state"
+	"0chain.net/chaincore/node"
 	tbls "0chain.net/chaincore/threshold/bls"
 	"0chain.net/chaincore/transaction"
 	"0chain.net/core/encryption"
@@ -46,6 +48,7 @@ type c38Params struct {
 	PhaseRounds [5]int64
 	ExtraMiners int
 	ExtraShard  int
+	EarlyExtras bool
 	Hostile     float64
 }
 
@@ -61,6 +64,10 @@ func c38ParamsOf(tier string, idx int) c38Params {
 	}
 	p.ExtraMiners = r.Intn(4)
 	p.ExtraShard = r.Intn(2)
+	if idx%3 == 0 {
+		// newcomers registered from the first block on: enough of them (K) to run a key generation without any member of the set in force
+		p.ExtraMiners, p.ExtraShard, p.EarlyExtras = 3, 1, true
+	}
 	p.Hostile = []float64{0.15, 0.3, 0.5}[idx%3]
 	return p
 }
@@ -1048,6 +1055,7 @@ func (c *c38) judgeViewChange(rn int64, b *block.Block) {
 				hs = true
 			}
 		}
+		fmt.Printf("C38 child %d r%d view change: accessors miners=%d sharders=%d; stored miners=%d sharders=%d; nodesmap-nil=%v nodes=%d type=%d\n", c.p.Idx, rn, len(got), len(gotS), len(c.pendMiners), len(c.pendSharders), b.MagicBlock.Miners.NodesMap == nil, len(b.MagicBlock.Miners.Nodes), b.MagicBlock.Miners.Type)
 		c.logf("r%d VIEW CHANGE: block carries magic block #%d; members through its accessors: miners=%d sharders=%d; stored: miners=%d sharders=%d", rn, b.MagicBlock.MagicBlockNumber, len(got), len(gotS), len(c.pendMiners), len(c.pendSharders))
 		if !hm || !hs {
 			ev["carried"] = map[string]interface{}{"miners_by_accessor": len(got), "sharders_by_accessor": len(gotS), "miners_node_slice": len(b.MagicBlock.Miners.Nodes), "stored_miners": len(c.pendMiners), "stored_sharders": len(c.pendSharders), "json": trunc(string(b.MagicBlock.Encode()), 300)}
@@ -1129,6 +1137,12 @@ func c38Child(tier string, idx int) (code int) {
 	for i, k := range []string{"start_rounds", "contribute_rounds", "share_rounds", "publish_rounds", "wait_rounds"} {
 		sc["minersc."+k] = p.PhaseRounds[i]
 	}
+	if p.EarlyExtras {
+		// 4 old + 3 new miners: K = ceil(0.4*7) = 3, so the newcomers alone can reach K and only the previous-member rules stand
+		// between them and a magic block of their own
+		sc["minersc.k_percent"] = 0.4
+		sc["minersc.t_percent"] = 0.3
+	}
 	c.w = world.New(world.Options{Seed: p.WorldSeed, ViewChange: true, NumClients: 6, SCSet: sc})
 	defer c.w.Close()
 	logging.Logger = zap.NewNop()
@@ -1162,6 +1176,48 @@ func c38Child(tier string, idx int) (code int) {
 	for i := 0; i < p.ExtraShard; i++ {
 		c.nodes = append(c.nodes, &actor{W: c.w.AddWallet(fmt.Sprintf("xsharder%d", i)), Kind: "sharder", Host: fmt.Sprintf("xsharder%d.verif.test", i), Port: 7181 + i})
 	}
+	if p.EarlyExtras {
+		// add_miner / add_sharder only take nodes of the chain's current magic block. Give the chain a current magic block (number 2,
+		// starting at round 1) that lists the newcomers too, while its latest finalized one - the "previous set" the contract refers
+		// to - stays the genesis magic block.
+		mb2 := block.NewMagicBlock()
+		mb2.Miners = node.NewPool(node.NodeTypeMiner)
+		mb2.Sharders = node.NewPool(node.NodeTypeSharder)
+		mb2.MagicBlockNumber = c.w.MB.MagicBlockNumber + 1
+		mb2.PreviousMagicBlockHash = c.w.MB.Hash
+		mb2.StartingRound = 1
+		mi, si := 0, 0
+		for _, a := range c.nodes {
+			n := &node.Node{Host: "127.0.0.1", N2NHost: "127.0.0.1", Port: a.Port, Status: node.NodeStatusActive}
+			pool := mb2.Miners
+			if a.Kind == "miner" {
+				n.Type, n.SetIndex = node.NodeTypeMiner, mi
+				mi++
+			} else {
+				n.Type, n.SetIndex = node.NodeTypeSharder, si
+				si++
+				pool = mb2.Sharders
+			}
+			if err := n.SetSignatureScheme(a.W.Scheme); err != nil {
+				panic(err)
+			}
+			n.Client.ID = a.W.ID
+			if err := pool.AddNode(n); err != nil {
+				panic(err)
+			}
+		}
+		mb2.T, mb2.K, mb2.N = c.w.MB.T, c.w.MB.K, mi
+		mb2.Hash = mb2.GetHash()
+		if err := c.w.Chain.UpdateMagicBlock(mb2); err != nil {
+			panic(fmt.Sprintf("cannot install the wider current magic block: %v", err))
+		}
+		if got := c.w.Chain.GetCurrentMagicBlock(); got == nil || got.Miners.Size() != mi {
+			panic("the chain's current magic block is not the wider one")
+		}
+		if lf := c.w.Chain.GetLatestFinalizedMagicBlock(context.Background()); lf == nil || lf.MagicBlock.Miners.Size() != len(c.w.Miners) {
+			panic("the latest finalized magic block changed")
+		}
+	}
 	c.planPhase = -1
 	c.dkgs = map[string]*tbls.DKG{}
 	c.lastPub = map[string][]byte{}
@@ -1177,9 +1233,9 @@ func c38Child(tier string, idx int) (code int) {
 		}
 	}
 	for _, a := range c.nodes {
-		if a.Genesis {
+		if a.Genesis || p.EarlyExtras {
 			if res := c.register(a); !res.OK {
-				panic(fmt.Sprintf("genesis node %s could not register: %s %s", a.W.Name, res.Output, res.Err))
+				panic(fmt.Sprintf("node %s could not register: %s %s", a.W.Name, res.Output, res.Err))
 			}
 		}
 	}
